@@ -123,6 +123,35 @@ func runWeight(c *Case) string {
 	if got != want {
 		return fmt.Sprintf("GetTransactionWeight = %d, definition 3*%d+%d = %d", got, len(t.Serialize(false)), len(t.Serialize(true)), want)
 	}
+	// the same wrapper before and after the witness data is attached (what the
+	// template generator does to its coinbase, and every sign-after-estimate
+	// flow): the weight is a function of the transaction as it is now
+	hasWit := false
+	for _, in := range t.In {
+		if len(in.Witness) > 0 {
+			hasWit = true
+		}
+	}
+	if hasWit {
+		m := toWire(t)
+		wits := make([]wire.TxWitness, len(m.TxIn))
+		for i, in := range m.TxIn {
+			wits[i], in.Witness = in.Witness, nil
+		}
+		wrapped := btcutil.NewTx(m)
+		bare := blockchain.GetTransactionWeight(wrapped)
+		_ = wrapped.HasWitness()
+		_ = wrapped.WitnessHash()
+		if wantBare := int64(4 * len(t.Serialize(false))); bare != wantBare {
+			return fmt.Sprintf("GetTransactionWeight of the transaction without its witnesses = %d, definition %d", bare, wantBare)
+		}
+		for i, in := range m.TxIn {
+			in.Witness = wits[i]
+		}
+		if again := blockchain.GetTransactionWeight(wrapped); again != want {
+			return fmt.Sprintf("GetTransactionWeight = %d after the witnesses were attached to an already weighed transaction (weight %d before), definition 3*%d+%d = %d", again, bare, len(t.Serialize(false)), len(t.Serialize(true)), want)
+		}
+	}
 	return ""
 }
 
